@@ -49,7 +49,8 @@ func TestVerifC02Parrots(t *testing.T) {
 	defer l.Close()
 	var cases []c02Case
 	rtt := 10 * time.Millisecond
-	k1 := []simworld.Action{{Kind: "drop"}, {Kind: "dup"}, {Kind: "delay", Delay: 4 * rtt}}
+	// (the late duplicates arrive after the handshake is confirmed and its keys are gone)
+	k1 := []simworld.Action{{Kind: "drop"}, {Kind: "dup"}, {Kind: "delay", Delay: 4 * rtt}, {Kind: "dup", Delay: 3 * rtt}, {Kind: "dup", Delay: 12 * rtt}}
 	servers := []string{"default", "retry", "cid20"}
 	dials := l.Pick(3, 5)
 	for _, id := range quicworld.QUICIDNames {
@@ -212,7 +213,7 @@ func TestVerifC02Derived(t *testing.T) {
 	rng := l.Rand("c02derived")
 	n := l.Pick(250, 6000)
 	bases := append([]string{"hello:small", "hello:mid", "hello:big1", "hello:pq", "hello:huge"}, quicworld.QUICIDNames...)
-	acts := []simworld.Action{{Kind: "drop"}, {Kind: "dup"}, {Kind: "delay", Delay: 40 * time.Millisecond}}
+	acts := []simworld.Action{{Kind: "drop"}, {Kind: "dup"}, {Kind: "delay", Delay: 40 * time.Millisecond}, {Kind: "dup", Delay: 30 * time.Millisecond}, {Kind: "dup", Delay: 120 * time.Millisecond}}
 	// transport parameters a conformant server does not require
 	optional := []uint64{27, 0x03, 0x0b, 0x0a, 0x0c, 0x20, 0x0e}
 	var cases []c02Derived
